@@ -88,6 +88,7 @@ deriving Repr
 inductive ZOp
   | setInstance (id : Nat)
   | get
+  | getFail                   -- `get_async_zeroconf()` when the library cannot create an instance (`AsyncZeroconf()` raises OSError)
   | close
   | lookup (ok : Bool)        -- `_async_zeroconf_get_service_info`, the request succeeding or failing
 deriving Repr
@@ -110,6 +111,7 @@ def zStep (z : Zc) : ZOp → Zc
     | none => { z with inst := some (.supplied id), raised := false }
     | some i => if i.id = id then { z with raised := false } else { z with raised := true }
   | .get => { zGet z with raised := false }
+  | .getFail => { z with raised := false }     -- an instance already held is returned; a failed creation leaves nothing behind
   | .close => { zClose z with raised := false }
   | .lookup _ =>
     let had := z.inst.isSome
